@@ -196,6 +196,7 @@ func isString(t types.Type) bool {
 }
 
 func typeKey(t types.Type) string {
+	t = types.Unalias(t) // type GT = fptower.E12: one type, one key
 	return types.TypeString(t, func(p *types.Package) string { return p.Path() })
 }
 
